@@ -905,4 +905,48 @@ theorem W.run_write : ∀ (tr : List Ev) (w : W), (∃ e ∈ tr, e.isWrite = tru
       · exact absurd hw he
       · exact ⟨x, hx, hw⟩
 
+/-! ### 8. small facts used by the property files -/
+
+theorem splitNext_none_of_not_mem : ∀ (h : List Act), Act.next ∉ h → (∀ a ∈ h, a.isAbort = false) →
+    splitNext h = none := by
+  intro h
+  induction h with
+  | nil => intro _ _; simp [splitNext]
+  | cons a rest ih =>
+    intro hn hna
+    have h1 : a ≠ .next := fun e => hn (by simp [e])
+    have h2 : a.isAbort = false := hna a (by simp)
+    have h3 := ih (fun hm => hn (by simp [hm])) (fun x hx => hna x (by simp [hx]))
+    simp [splitNext, h1, h2, h3]
+
+theorem splitNext_of_split : ∀ (pre post : List Act), (∀ a ∈ pre, a ≠ .next ∧ a.isAbort = false) →
+    splitNext (pre ++ .next :: post) = some (pre, post) := by
+  intro pre
+  induction pre with
+  | nil => intro post _; simp [splitNext]
+  | cons a rest ih =>
+    intro post h
+    have h1 := h a (by simp)
+    have h3 := ih post (fun x hx => h x (by simp [hx]))
+    simp [splitNext, h1.1, h1.2, h3]
+
+/-- a `Next()` in a stretch where `Next()` has no effect can be left out -/
+theorem flat_filter_next (i : Nat) : ∀ (acts : List Act) (ab : Bool),
+    flat i ab (acts.filter (fun a => !decide (a = Act.next))) = flat i ab acts := by
+  intro acts
+  induction acts with
+  | nil => intro ab; simp
+  | cons a rest ih =>
+    intro ab
+    by_cases hn : a = .next
+    · subst hn; simp [flat, ownEv, ih]
+    · simp [List.filter_cons, hn, flat, ih]
+
+/-- a whole request as a validated trace -/
+theorem serve_check (hs : List Handler) :
+    ∃ k, k ≤ hs.length ∧ ((onion 0 hs).2 = false → k = hs.length) ∧
+      check ⟨false, [], 0⟩ (onion 0 hs).1 = some ⟨(onion 0 hs).2, [], k⟩ := by
+  obtain ⟨k, h1, h2, h3⟩ := check_onion hs 0
+  exact ⟨k, h1, h2, by simpa using h3 []⟩
+
 end Rux.Chain
